@@ -194,10 +194,13 @@ def structure_problems(ctx, state):
             pt = p.id
             ctx.count('citations_resolved')
             if not dep_ok(pos, pt):
-                probs.append(('citation-not-earlier-visible', 'line %s (%s) cites %s, which is not an earlier line of its own or an '
+                rel = ('target-is-a-block-enclosing-the-citing-line' if tuple(pos[:len(pt)]) == tuple(pt) and len(pt) < len(pos)
+                       else 'target-is-the-citing-line-itself' if tuple(pos) == tuple(pt)
+                       else 'target-is-later-or-inside-a-closed-block')
+                probs.append(('citation-not-earlier-visible:' + rel, 'line %s (%s) cites %s, which is not an earlier line of its own or an '
                               'enclosing block' % ('.'.join(map(str, pos)), it.rule, p)))
             elif pt not in by_pos:
-                probs.append(('citation-not-earlier-visible', 'line %s (%s) cites %s, which does not exist' % (
+                probs.append(('citation-not-earlier-visible:target-missing', 'line %s (%s) cites %s, which does not exist' % (
                     '.'.join(map(str, pos)), it.rule, p)))
             else:
                 try:
@@ -311,7 +314,7 @@ def tactic_concludes_other_statement():
     return False
 
 
-def recheck_mechanism(sess, new, op, M):
+def recheck_mechanism(sess, new, op, M, exc=None):
     """mechanism key of a failing full re-check; root causes that are already understood get their own key (a predicate
     on what the operation did), so that listing them as known cannot hide other failures of the same method"""
     name = op_name(op)
@@ -348,7 +351,8 @@ def recheck_mechanism(sess, new, op, M):
                 c = by.get(str(p))
                 if c is not None and c.rule == 'sorry' and seq_key(thm_sh(c.th, M)) == k:
                     return 'recheck-fails-after-edit:%s-leaves-the-goal-unchanged' % name
-    return 'recheck-fails-after-edit:' + name
+    # not understood yet: keyed by the method AND the rule of the line at which the re-check fails
+    return 'recheck-fails-after-edit:%s@%s:%s' % (name, failing_rule or 'unknown-line', type(exc).__name__ if exc is not None else 'exception')
 
 
 def exc_name(e):
@@ -583,7 +587,7 @@ def judge(sess, new, op, M):
         raise
     except BaseException as e:
         sess.tainted = True
-        sess.violation(recheck_mechanism(sess, new, op, M),
+        sess.violation(recheck_mechanism(sess, new, op, M, e),
                        'the operation returned normally (and check_proof(compute_only=True) passed) but the full check raises %s at line %s: %s' % (
                            exc_name(e), Track.first, sstr(e, 300).replace('\n', ' | ')), op)
         return
@@ -1547,6 +1551,12 @@ SCENARIOS = [
     ('logic', PQ, '(?x. P x) --> (!x. P x --> Q x) --> (?x. Q x)',
      [M_('exists_elim', '2', ['0'], names='u'), M_('forall_elim', '4', ['1'], s='u'), M_('apply_fact', '5', ['4', '3']),
       M_('inst_exists_goal', '6', s='u')]),
+    # an assumption of the main block is cited from INSIDE a nested block (the inner goal is closed by it at once);
+    # reverting that assumption must be refused - or every citation must follow (last step: refusal expected)
+    ('logic', ABC, '(A --> B) --> A --> B',
+     [M_('cut', '2', goal='C --> A'), M_('introduction', '2'), M_('revert_intro', '3', ['1'])]),
+    ('logic', PQ, '(C --> C) --> (!x. P x) --> C --> C',
+     [M_('cut', '3', goal="!y::'a. C"), M_('introduction', '3', names='y'), M_('revert_intro', '4', ['2'])]),
 ]
 
 
@@ -1563,6 +1573,10 @@ def run_scenarios(ctx):
         ctx.count('scenarios')
         for op in ops:
             r = apply_op(sess, op, 'scenario_ops_accepted')
+            if r != 'ok' and op.get('step', {}).get('method_name') == 'revert_intro' and op is ops[-1]:
+                ctx.count('scenario_final_revert_refused')
+                ctx.count('scenarios_completed')
+                break
             if r != 'ok':
                 ctx.count('scenario_step_rejected')
                 ctx.note('scenario %d: step %s was not accepted (%r)' % (k, op_label(op), r))
